@@ -1,6 +1,6 @@
 SPECIFICATION Spec
 CONSTANTS
-  WMax = 3
+  WMax = 2
   BigWs <- BigWs_q
   Ms = {0, 1, 2, 3, 4, 5, 6, 7}
   KStep = 2
